@@ -88,6 +88,14 @@ Theorem c11_transformed_back : forall (R : StarRing) (n : nat) (S S1 A : @mat R)
 Proof. intros R n S S1 A H. now apply transform_back. Qed.
 Print Assumptions c11_transformed_back.
 
+(* the whole basis discipline of the aggregate calculation (the program of calls is tied to the source on every run by
+   gen_transforms_is_model of the generated file): every shared operator - Hamiltonian, dipole operator, supplied tensor -
+   is handed back as it was found, with or without a supplied tensor *)
+Theorem c11_calculation_restores_operators : forall (R : StarRing) (n : nat) (S S1 : @mat R) (with_tensor : bool) (o : tobj) (A : @mat R),
+  meq n (mmul n S S1) mid -> meq n (trun n S S1 with_tensor purity_prog o A) A.
+Proof. intros R n S S1 wt o A H. now apply purity_prog_restores. Qed.
+Print Assumptions c11_calculation_restores_operators.
+
 (* ---- exciton line shapes: the energy-gap correlation function of exciton state n+1 built by _excitonic_coft ---- *)
 (* relabelling the molecules (sites, eigenvector rows and the matrix of bath correlation functions permuted together) leaves
    the correlation function - hence the line shape g_a(t) - of every exciton state unchanged *)
